@@ -104,17 +104,17 @@ def guardsOf : String → List Guard
   | "AddRule" => [.enabled, .checkWrite, .atCapacity]
   | "RemRule" => [.enabled, .checkWrite]
   | "EnableRule" => [.enabled, .checkWrite]
-  | "RuleEnabled" => [.enabled]
+  | "RuleEnabled" => [.enabled, .checkRead]
   | "GetRule" => [.enabled, .checkRead]
   | "searchFacts" => [.enabled, .checkRead]
   | "searchRules" => [.enabled, .checkRead]
   | "SearchRules" => [.enabled, .checkRead]
   | "ListRules" => [.enabled, .checkRead]
-  | "GetParents" => [.enabled]
-  | "SetParents" => [.enabled]
+  | "GetParents" => [.enabled, .checkRead]
+  | "SetParents" => [.enabled, .checkWrite]
   | "Clear" => [.enabled, .checkWrite]
   | "Delete" => [.enabled, .checkWrite]
-  | "StateSize" => [.checkRead]
+  | "StateSize" => [.enabled, .checkRead]
   | "Query" => [.enabled]
   | "RunJavascript" => [.enabled]
   | _ => []
@@ -297,12 +297,15 @@ def Sys.at {α} (sys : Sys) (n : String) (m : LM α) : Sys × Except LErr α :=
   | some l => let (l', r) := m l; (sys.put l', r)
 
 /-- `DoAncestors`: depth-first over the parents (each visited with its own ancestors first), then the
-location itself. `fuel` stands for the Go stack: an indirect loop exhausts it (`diverge`). -/
+location itself. `fuel` stands for the Go stack; since the names on the current path are pairwise distinct, `sys.length + 2`
+always suffices (C09 `ancestors_fuel_suffices`). -/
 def doAncestors {α} (fuel : Nat) (sys : Sys) (n : String) (now : Int)
-    (fn : String → LM α) (acc : List α) : Sys × Except LErr (List α) :=
+    (fn : String → LM α) (acc : List α) (path : List String := []) : Sys × Except LErr (List α) :=
   match fuel with
   | 0 => (sys, .error "diverge")
   | fuel + 1 =>
+    -- the names on the current path: a chain of parents that comes back is the AncestorLoop error
+    if path.contains n then (sys, .error "loop") else
     match sys.at n (locGetParentsRaw now) with
     | (sys1, .error e) => (sys1, .error e)
     | (sys1, .ok parents) =>
@@ -319,7 +322,7 @@ def doAncestors {α} (fuel : Nat) (sys : Sys) (n : String) (now : Int)
           match sys.get? p with
           | none => (sys, .error "notFound")
           | some _ =>
-            match doAncestors fuel sys p now fn acc with
+            match doAncestors fuel sys p now fn acc (n :: path) with
             | (sys2, .error e) => (sys2, .error e)
             | (sys2, .ok acc2) => loop fuel' sys2 rest acc2
       match loop (parents.length + 1) sys1 parents acc with
